@@ -113,3 +113,46 @@ pub(crate) mod k {
             && hi.y == a.start.y.max(a.end.y), "bounds = box of the chord");
     }
 }
+
+#[cfg(all(svgbob_verif, test))]
+pub(crate) mod b {
+    use super::*;
+
+    /// C06 (the float-rounding suspect): the centre of a corner arc and `is_aabb_right_angle_arc` do not depend on
+    /// where on the page the arc sits
+    #[test]
+    fn bounded_arc_center_translation() {
+        let thorough = std::env::var("VERIF_TIER").map(|v| v == "thorough").unwrap_or(false);
+        let (mx, my) = if thorough { (400, 200) } else { (400, 40) };
+        // the corner arcs the tables draw: radius 0.5 (normal corners) and 1.0 (wide corners), all four quadrants
+        let mut arcs = vec![];
+        for r in [0.5f32, 1.0] {
+            for (sx, sy) in [(1.0f32, 1.0f32), (1.0, -1.0), (-1.0, 1.0), (-1.0, -1.0)] {
+                let a = Point::new(2.0, 2.0 + sy * r);
+                let b = Point::new(2.0 + sx * r, 2.0);
+                arcs.push(Arc::new(a, b, r));
+                arcs.push(Arc::new_with_sweep(a, b, r, true));
+            }
+        }
+        arcs.push(Arc::new(Point::new(1.0, 1.0), Point::new(3.0, 2.5), 2.0)); // not a right-angle arc
+        let mut n = 0u64;
+        for a in &arcs {
+            let c0 = a.center();
+            let r0 = a.is_aabb_right_angle_arc();
+            for k in 0..=mx {
+                for nrow in (0..=my).step_by(if thorough { 1 } else { 3 }) {
+                    let cell = Cell::new(k, nrow);
+                    let t = a.absolute_position(cell);
+                    let c = t.center();
+                    let (ex, ey) = (c0.x + k as f32, c0.y + 2.0 * nrow as f32);
+                    if t.is_aabb_right_angle_arc() != r0 || (c.x - ex).abs() > 1e-3 || (c.y - ey).abs() > 1e-3 {
+                        println!("BOUNDED-WITNESS arc {} moved to cell {}: centre {} (expected ({},{})), right angle {} (at origin {})", a, cell, c, ex, ey, t.is_aabb_right_angle_arc(), r0);
+                        panic!("arc geometry does not depend on the position on the page");
+                    }
+                    n += 1;
+                }
+            }
+        }
+        println!("BOUNDED-CASES {}", n);
+    }
+}
